@@ -48,7 +48,7 @@ class Engine(ExprMixin, CallMixin):
         self.externals = externals or {}
         self.exc_classes = set(exc_classes)
         self.opaque_may_raise = opaque_may_raise
-        self.feas_ms = 700
+        self.feas_ms = 300
         self.field_consts = {}
         self.hooks = hooks
         self.assumptions = set()
@@ -60,6 +60,9 @@ class Engine(ExprMixin, CallMixin):
         self.f_truthy = z3.Function('truthy', Val, z3.BoolSort())
         self.f_callable = z3.Function('is_callable', Val, z3.BoolSort())
         self.f_opaque_call = z3.Function('opaque_call', Val, Val, Val)
+        self.f_oseq_len = z3.Function('oseq_len', Val, z3.IntSort())
+        self.f_oseq_item = z3.Function('oseq_item', Val, z3.IntSort(), Val)
+        self.stable_lists = set()
         self.reset()
 
     def register_class(self, cls):
@@ -608,6 +611,9 @@ class Engine(ExprMixin, CallMixin):
                     return self.wrap(cls.v, z3.Select(val, kk))
                 return STuple([self.wrap(cls.k, kk), self.wrap(cls.v, z3.Select(val, kk))])
             return dict(n=size, get=get, facts=facts, keys=ks, idx=idx)
+        if isinstance(it, SVal) and it.t.get_id() in self.stable_lists:
+            n = self.f_oseq_len(it.t)
+            return dict(n=n, get=lambda j: SVal(self.f_oseq_item(it.t, j)), facts=[n >= 0])
         h = self.externals.get('iterate')
         if h:
             r = h(self, it, st)
